@@ -386,6 +386,28 @@ impl SendRateComp {
     }
 }
 
+#[cfg(uflow_verif)]
+impl SendRateComp {
+    pub fn verif_dump(&self) -> String {
+        let o = |v: Option<u64>| match v { Some(x) => format!("{}", x), None => "-".to_string() };
+        let mode = match self.mode {
+            SendRateMode::AwaitSend => "A".to_string(),
+            SendRateMode::SlowStart(ref s) => format!("S{}", o(s.time_last_doubled_ms)),
+            SendRateMode::ThroughputEqn(ref s) => format!("T{}", s.send_rate_tcp),
+        };
+        let rs = self.recv_rate_set.verif_dump();
+        format!("X={} max={} mode={} plr={:016x} nfe={} idle={} rtts={} rttms={} rtoms={} rs={}",
+                self.send_rate, self.max_send_rate, mode, self.prev_loss_rate.to_bits(),
+                o(self.nofeedback_exp_ms), self.nofeedback_idle as u8,
+                match self.rtt_s { Some(x) => format!("{:016x}", x.to_bits()), None => "-".to_string() },
+                o(self.rtt_ms), o(self.rto_ms), rs)
+    }
+
+    pub fn verif_tcp_throughput(rtt: f64, p: f64) -> u32 {
+        eval_tcp_throughput(rtt, p)
+    }
+}
+
 #[cfg(test)]
 mod tests {
     use super::*;
